@@ -34,7 +34,7 @@ RULE = (
 )
 ASSUMPTIONS = [
     "ScriptedContext stands in for the authentication provider; real NTLM and SPNEGO handshakes are run as the realistic members",
-    "scripts whose handshake PDUs disagree about PFC_SUPPORT_HEADER_SIGN are executed but the header-signing decision is not judged for them",
+    "header signing is judged for scripts whose acks all agree and for scripts whose bind_ack lacks PFC_SUPPORT_HEADER_SIGN (then it must be off); 'bind_ack advertised it, a later ack did not' is executed but not judged",
     "acks with fewer results than offered contexts: outcome {error} or {treated as not accepted} both accepted; a Request on an unaccepted context never is",
 ]
 BT = spnego.iov.BufferType
@@ -158,7 +158,10 @@ def reference(provider: tuple, script: t.Sequence[tuple]) -> dict:
             exp["malformed_results"] = True
         sign_flags.append(r[3])
         tok = (b"SRV%d" % (exp["consumed"] - 1) if r[4] else b"")
-    exp["judged_sign"] = all(sign_flags) or not any(sign_flags)
+    # consistent scripts are judged; so are scripts whose bind_ack (the server's answer to the client's
+    # advertisement) lacks the flag: header signing was then not negotiated, whatever later acks say.
+    # Only "bind_ack advertised it, a later ack did not" stays unjudged (the statement does not define it).
+    exp["judged_sign"] = all(sign_flags) or not any(sign_flags) or not sign_flags[0]
     exp["sign"] = all(sign_flags)
     if 0 not in accepted:
         exp["error"] = True
